@@ -409,6 +409,69 @@ def explore(pre, evs, depth, split_depth=2):
     return total, pair_hist
 
 
+# ------------------------------------------------------------------------------------------------
+# validity-boundary lattice: honest messages generated at / around the ticket's validity boundaries
+# ------------------------------------------------------------------------------------------------
+# Reading used: IEEE 1609.2 validity is start <= t <= start + duration.  The start instant is inclusive (a ticket is usable
+# from the very instant it becomes valid); at exactly the end instant both answers are accepted; instants outside the period
+# carry no obligation here (C09 judges the only-if direction there).
+OFFSETS = [("-2ms", -0.0015), ("exact", 0.0), ("+1ms", 0.0015), ("+1s", 1.0), ("-1s", -1.0)]
+SEQUENCES = [("CAM", "CAM", "GEN", "DENM"), ("VAM", "VAM", "DENM", "GEN"), ("DENM", "GEN", "CAM", "VAM")]
+
+
+def _validity_job(args):
+    boundary, (olabel, dt), seq = args
+    p = S.pki()
+    _trust()
+    lo, hi = CC.validity_s(p.d("AT_short"))
+    base = lo if boundary == "start" else hi
+    w = S.SecNet(now=base + S.ITS_EPOCH - CC.LEAP + dt, rng_seed="c05-validity")
+    a = w.add_secured("A", b"\0\0\0\0\0\x0a", S.make_stack(own="AT_short"))
+    b = w.add_secured("B", b"\0\0\0\0\0\x0b", S.make_stack(own="AT2"), lat=41.0002)
+    w.connect("A", "B")
+    bad = []
+    n = judged = 0
+    knows = False
+    for i, kind in enumerate(seq):
+        payload = payload_for(i + 1, kind)
+        w.sent.clear()
+        b.btp_indications.clear()
+        b.stack.verify.log.clear()
+        a.refresh()
+        n += 1
+        lab = dict(profile=kind, boundary=boundary, offset=olabel, position=i)
+        try:
+            S.send(w, a, kind, payload)
+        except Exception as e:  # noqa: BLE001
+            bad.append(dict(kind="emit_failed", psid=S.PROFILES[kind]["psid"], exc=type(e).__name__, station="A", **lab))
+            continue
+        frames = [f for (src, f) in w.sent if src == "A"]
+        if len(frames) != 1:
+            bad.append(dict(kind="emit_count", n=len(frames), **lab))
+            continue
+        d = CC.dec_data(frames[0][4:])
+        sd = d["content"][1]
+        t = sd["tbsData"]["headerInfo"]["generationTime"] / 1e6
+        carried = sd["signer"][0] == "certificate"
+        try:
+            w.quiesce()
+        except Exception as e:  # noqa: BLE001
+            bad.append(dict(kind="receive_exception", exc=type(e).__name__, **lab))
+        log = [c for (m, c, e) in b.stack.verify.log if m == frames[0][4:]]
+        ok = (bool(log) and log[-1] is not None and log[-1].report == ReportVerify.SUCCESS
+              and any(port == S.PROFILES[kind]["port"] and bytes(bi.data) == payload for port, bi in b.btp_indications))
+        inside = lo <= t <= hi
+        at_end = t == hi
+        if inside and not at_end and (carried or knows):
+            judged += 1
+            if not ok:
+                bad.append(dict(kind="honest_rejected", receiver="B", carried_certificate=carried, signer_mode="certificate" if carried else "digest",
+                                report=(log[-1].report.name if log and log[-1] is not None else "none"), verify_ok=False,
+                                station="A", at_start=(t == lo), seconds_after_start=round(t - lo, 3), **lab))
+        knows = knows or carried        # the ticket has been presented to the receiver (as in the BFS bookkeeping)
+    return n, judged, bad
+
+
 def run(ctx):
     thorough = ctx.tier == "thorough"
     rnd = random.Random(ctx.seed)
@@ -476,6 +539,18 @@ def run(ctx):
                 rec["config"] = "aid_lattice"
                 ctx.violation(rec, replay=dict(part="aid", profile=key[0], psid=key[1]))
     ctx.parts["aid_lattice"] = dict(evaluations=n_aid, cases=[list(j) for j in jobs])
+    vjobs = [(bd, off, seq) for bd in ("start", "end") for off in OFFSETS for seq in SEQUENCES]
+    n_val = n_judged = 0
+    with mp.Pool(16) as pool:
+        for n, judged, bad in pool.imap_unordered(_validity_job, vjobs):
+            n_val += n
+            n_judged += judged
+            for rec in bad:
+                rec["config"] = "validity_lattice"
+                ctx.violation(rec, replay=dict(part="validity", boundary=rec["boundary"], offset=rec["offset"]))
+    ctx.parts["validity_lattice"] = dict(evaluations=n_val, judged_must_accept=n_judged, boundaries=["start", "end"],
+                                         offsets=[o[0] for o in OFFSETS], sequences=[list(q) for q in SEQUENCES])
+    n_aid += n_val
     ctx.coverage.update(
         states=states, transitions=trans + 3 * n_probes + 2 * n_aid, traces_validated_against_impl=trans + 3 * n_probes + 2 * n_aid,
         evaluations=n_aid, probes=n_probes, distinct_pair_states=n_pairs, probe_memo_crosschecks=n_memo_x,
@@ -500,6 +575,14 @@ def replay(path):
     rec = json.load(open(path))
     print(json.dumps(rec["violation"], indent=1))
     rp = rec["replay"]
+    if rp.get("part") == "validity":
+        bad = []
+        for off in OFFSETS:
+            if off[0] == rp["offset"]:
+                for seq in SEQUENCES:
+                    bad += _validity_job((rp["boundary"], off, seq))[2]
+        print(bad or "ok")
+        return 1 if bad else 0
     if rp.get("part") == "aid":
         key, bad, acc = _aid_job((rp["profile"], rp["psid"]))
         print(key, "accepted" if acc else "not accepted", bad or "ok")
